@@ -6,6 +6,7 @@ from .. import datadoc as dd
 
 ID = "C06"
 MODULE = "LasioProofs.Props.C06"
+EXTRA_MODULES = ["LasioProofs.Props.C06File"]
 RULE = ("documents with NULL in {-999.25, 999.25, -999 (integer), 0, -0.0, 1e30, -99999, non-numeric text, absent} spelled in several ways in the "
         "header (-999.25, -999.2500, -9.9925E2, +999.25, 1E+30 ...) x cells that are NULL-equal in other spellings, NULL +- 1 ulp neighbours, "
         "ordinary numbers, NaN tokens, occasional text cells (making the column a text column), in ANY column including the index x "
@@ -369,6 +370,6 @@ LEVEL_TEXT = ("Machine-checked Lean 4 theorems about `applyNull`, the step of th
               "(C06_nonnumeric_null, C06_none), shapes are kept (C06_shape). Tie: every read of the generated documents (NULL values x spellings x "
               "1-ulp neighbours x columns x wrapped x engines x policies) is compared with the compiled model, and the oracle recomputes the "
               "expected result from the text with float().")
-LEVEL_NOTE = ("'However it is spelled' is a statement about binary64 parsing, which is a parameter of the model: the model sees canonical float "
+LEVEL_NOTE = ("WHOLE FILE (Props/C06File.lean): C06_file — for every document and option record, the curves of every data window are assignCurves d (applyNull (policy = strict) (nullOf steer.null) raw) of the engine's raw columns; C06_file_cells (NaN iff it was NaN or lies in a float column j != 0 and == NULL; column 0 and text columns untouched), C06_file_unchanged (policy none / no usable NULL), C06_file_null_source (the NULL is the single NULL item of the last ~W section, other sections never matter), counter-examples two NULL items, NULL text abc. 'However it is spelled' is a statement about binary64 parsing, which is a parameter of the model: the model sees canonical float "
               "texts, the harness/oracle establish that differently spelled tokens get equal texts. The write->read clause is checked by the "
               "oracle on the real code only, under the stated separation assumption.")
